@@ -607,6 +607,12 @@ def e7(e: Engine, rep: Report):
     def walks(it):
         if 'walk' in ast.unparse(it):
             return True
+        # a local bound once to a comprehension / filter over msg.walk()
+        if isinstance(it, ast.Name):
+            ds = [a.value for a in walk_own(fn) if isinstance(a, ast.Assign)
+                  and any(isinstance(t, ast.Name) and t.id == it.id
+                          for t in a.targets)]
+            return len(ds) == 1 and 'walk' in ast.unparse(ds[0])
         # a generator of the class that filters msg.walk()
         if isinstance(it, ast.Call) and isinstance(it.func, ast.Attribute) \
                 and isinstance(it.func.value, ast.Name) and \
@@ -657,10 +663,18 @@ def e7(e: Engine, rep: Report):
             elif isinstance(x, ast.Call) and isinstance(x.func, ast.Name) \
                     and x.func.id in alias:
                 hname = alias[x.func.id]
-            if hname is not None and any(
+            mfunc = None
+            if isinstance(x, ast.Call) and isinstance(x.func, ast.Name) and \
+                    x.func.id not in alias and \
+                    x.func.id not in ctx.func.params:
+                # a module-level helper the part is handed to
+                mfunc = e.p.functions.get(
+                    ctx.func.module.name + '.' + x.func.id)
+            if (hname is not None or mfunc is not None) and any(
                         isinstance(a, ast.Name) and a.id == var
                         for a in x.args):
-                h = e.p.lookup_method(ENV, hname)
+                h = mfunc if mfunc is not None else \
+                    e.p.lookup_method(ENV, hname)
                 if h is not None:
                     prm = [p for p in h.params if p not in ('self', 'cls')]
                     i = [j for j, a in enumerate(x.args)
